@@ -103,3 +103,14 @@ def run(run_, pkg, tier):
                 tasks.append((key, rule, ob, "%s:%d" % (fn._gs_module, fn.lineno)))
     run_.floor("frame-independence obligations", len(tasks) if run_.only is None else 40, 40)
     record(run_, tasks, run_tasks(pkg, tasks))
+    if run_.only is None:
+        # iteration-wise commutation additionally needs: poses change only through the (equivariant) boxplus update of the
+        # Gauss-Newton step, and the run stops by the frame-invariant chi^2 criterion only
+        from .. import optim_rules
+        oa = optim_rules.analyse(pkg)
+        n = 0
+        for f in oa.findings:
+            if f.rule.startswith(("C03-d", "C12-T2")):
+                n += 1
+                run_.check(f.ok, "C07-structure/" + f.key, "C07-structure-frame-invariant-iteration", f.what, where=f.where)
+        run_.floor("C07 structural rule instances", n, 12)
